@@ -11,7 +11,9 @@ def run(report):
                          'parso.parser.BaseParser.error_recovery', 'parso.python.parser.Parser.error_recovery#strict',
                          'parso.python.parser.Parser.error_recovery#recover', 'parso.python.parser.Parser.error_recovery.current_suite',
                          'parso.python.parser.Parser._stack_removal', 'parso.parser.StackNode.nonterminal',
-                         'parso.parser.ParserSyntaxError.__init__', 'parso.parser.BaseParser.parse'], procs=14)
+                         'parso.parser.ParserSyntaxError.__init__', 'parso.parser.BaseParser.parse',
+                         'parso.python.parser.Parser.convert_node', 'parso.python.tree.Scope.__init__', 'parso.python.tree.Class.__init__',
+                         'parso.python.tree.Module.__init__'], procs=14)
     report.assume("engine: _add_token / _pop are proved free of IndexError / KeyError / AttributeError and to keep the stack "
                   "shape under the preconditions 'stack non-empty and well formed', 'tables well formed' (T obligations) and "
                   "'the root entry is not complete' (ENDMARKER is the last token: tokenizer contract, bounded); "
@@ -21,8 +23,9 @@ def run(report):
                   "_omit_dedent_list is none of the object lists, a DEDENT never arrives while the top entry is empty, the "
                   "root entry belongs to the start rule, recovery mode implies start symbol file_input (checked by Grammar._parse); "
                   "the recursion error_recovery -> _add_token -> error_recovery is verified for partial correctness only "
-                  "(termination not proved); convert_node (dynamic class lookup, node constructors that inspect grammar-shaped "
-                  "children) is used through an assumed contract; BaseParser.parse (the driver loop) is proved safe and to "
+                  "(termination not proved); Parser.convert_node is proved (class chosen from the constant table node_map by the rule name, suite drops "
+                  "children[1] and children[-1]) with the constructors of Function / Lambda ASSUMED total on grammar-shaped children "
+                  "(they call _create_params, which is not under contract); BaseParser.parse (the driver loop) is proved safe and to "
                   "return a node under two stated per-iteration assumptions (root entry not complete while tokens remain; the "
                   "tables' push lists are not the parser's working lists); Parser.parse (wraps the token filter generator), the "
                   "tokenizer and Grammar._parse are not under contract: totality of the whole pipeline rests on the bounded stand-in",
